@@ -165,7 +165,11 @@ pub fn point2_from_str(s: &str) -> Result<Point2, Error> {
         .collect::<Vec<_>>()
         .as_slice()
     {
-        Ok(point![x.parse()?, y.parse()?])
+        let (x, y): (f32, f32) = (x.parse()?, y.parse()?);
+        if !x.is_finite() || !y.is_finite() {
+            bail!("Coordenadas no finitas en el punto 2D '{}'", s)
+        }
+        Ok(point![x, y])
     } else {
         bail!("Fallo al generar punto 2D con los datos '{}'", s)
     }
@@ -184,7 +188,11 @@ pub fn point3_from_str(s: &str) -> Result<Point3, Error> {
         .collect::<Vec<_>>()
         .as_slice()
     {
-        Ok(point![x.parse()?, y.parse()?, z.parse()?])
+        let (x, y, z): (f32, f32, f32) = (x.parse()?, y.parse()?, z.parse()?);
+        if !x.is_finite() || !y.is_finite() || !z.is_finite() {
+            bail!("Coordenadas no finitas en el punto 3D '{}'", s)
+        }
+        Ok(point![x, y, z])
     } else {
         bail!("Fallo al generar punto 3D con los datos '{}'", s)
     }
